@@ -8,6 +8,9 @@ for the monitor spec/Descr/DescrTrace.tla.
   slots : Slot(...), convert_slots_to_new, convert_slots_to_old
   func  : PythonTask(...) / pythontask(f)(...) / PythonTask.get_func_attr,
           the decoded call, and the real raptor Worker._dispatch_func
+  fseq  : several short-lived callables (partials, lambdas, closures made in
+          a loop) encoded one after the other, each dropped before the next
+          one is made; all decoded and called afterwards
 
 The rig holds no logic of the code under test: it builds the input, calls, and
 projects the result onto the value encoding of DescrOps.tla (integers, -1 for
@@ -479,7 +482,68 @@ def run_func(inp):
 
 
 # ------------------------------------------------------------------------------
-RUNNERS = {'td': run_td, 'pd': run_pd, 'slots': run_slots, 'func': run_func}
+# sequences of short-lived callables: the i-th one carries the tag i, so that a
+# payload which comes back as another element's callable gives another result
+#
+SHORT = ['partial', 'lambda', 'closure']
+
+
+def short_func(fid, tag):
+    if fid == 'partial':
+        return functools.partial(f_pure, 'bound', tag)
+    if fid == 'lambda':
+        return lambda *a, _tag=tag, **k: ('lambda', _tag, len(a), sorted(k))
+    if fid == 'closure':
+        def inner(*a, **k):
+            return ('closure', tag) + _digest(a, k)
+        return inner
+    raise ValueError(fid)
+
+
+def run_fseq(inp):
+    api, fs, aid = inp['api'], list(inp['fs']), inp['a']
+    args = ARGS[aid]
+    evs  = []
+
+    direct = [_outcome(lambda: short_func(fid, i)(*copy.deepcopy(args)))[:400]
+              for i, fid in enumerate(fs)]
+
+    bsons, res, exc = [], 'ok', 'none'
+    for i, fid in enumerate(fs):
+        f = short_func(fid, i)
+        try:
+            if api == 'class':
+                bsons.append(rp.PythonTask(f, args))
+            else:
+                bsons.append(rp.pythontask(f)(*args))
+        except Exception as e:
+            res, exc = 'raise', type(e).__name__
+            break
+        finally:
+            del f                      # gone before the next one is created
+    evs.append({'ev': 'EncodeSeq', 'res': res, 'exc': exc,
+                'isstr': all(isinstance(b, str) for b in bsons)})
+    if res != 'ok':
+        return {'kind': 'fseq', 'inp': copy.deepcopy(inp), 'events': evs}
+
+    decoded, ok, same, res, exc = [], True, True, 'ok', 'none'
+    for b in bsons:
+        try:
+            func, dargs, dkw = rp.PythonTask.get_func_attr(b)
+            ok   = ok and bool(callable(func))
+            same = same and list(dargs) == list(args)
+            decoded.append(_outcome(lambda: func(*dargs, **dkw))[:400])
+        except Exception as e:
+            res, exc = 'raise', type(e).__name__
+            decoded.append('undecodable')
+    evs.append({'ev': 'DecodeSeq', 'res': res, 'exc': exc, 'callable': ok, 'args_same': same})
+    evs.append({'ev': 'CallSeq', 'direct': direct, 'decoded': decoded})
+    return {'kind': 'fseq', 'inp': copy.deepcopy(inp), 'events': evs}
+
+
+# ------------------------------------------------------------------------------
+RUNNERS = {'td': run_td, 'pd': run_pd, 'slots': run_slots, 'func': run_func,
+           'fseq': run_fseq}
 
 
 def run(kind, inp):
